@@ -1277,6 +1277,10 @@ done:
        */
       *bin     = (unsigned char *)ares_buf_finish_str(binbuf, &mylen);
       *bin_len = mylen;
+      if (*bin == NULL) {
+        /* For an empty string the terminating NUL is the first allocation */
+        status = ARES_ENOMEM; /* LCOV_EXCL_LINE: OutOfMemory */
+      }
     } else {
       /* Caller only wanted to skip over the string */
       ares_buf_destroy(binbuf);
